@@ -39,6 +39,20 @@ fn linecol_cases(ctx: &mut Ctx, src: &str) {
     }
 }
 
+/// `line_column_range` of a located thing = the documented rule applied to both ends, and = `get_line_column` of both ends
+fn range_check(src: &str, sources: &SourceMap, loc: apollo_compiler::parser::SourceSpan, what: &str, bad: &mut Vec<String>) {
+    let (a, b) = (loc.offset(), loc.end_offset());
+    if b > src.len() || a > b { return; }
+    let got = loc.line_column_range(sources).map(|r| ((r.start.line, r.start.column), (r.end.line, r.end.column)));
+    let want = spec_line_col(src, a).zip(spec_line_col(src, b));
+    if got != want { bad.push(format!("{what}: line_column_range of {a}..{b} is {got:?}, the documented rule gives {want:?}")); }
+    if let Some(file) = sources.get(&loc.file_id()) {
+        let pts = file.get_line_column(a).zip(file.get_line_column(b)).map(|(x, y)| ((x.line, x.column), (y.line, y.column)));
+        let rng = file.get_line_column_range(a..b).map(|r| ((r.start.line, r.start.column), (r.end.line, r.end.column)));
+        if pts != rng { bad.push(format!("{what}: get_line_column_range({a}..{b}) = {rng:?} but get_line_column of the two ends = {pts:?}")); }
+    }
+}
+
 struct Walk<'a> { src: &'a str, sources: &'a SourceMap, bad: Vec<String>, names: usize, nodes: usize }
 impl<'a> Walk<'a> {
     fn name(&mut self, n: &Name) {
@@ -49,6 +63,7 @@ impl<'a> Walk<'a> {
                 let (a, b) = (loc.offset(), loc.end_offset());
                 if !self.sources.contains_key(&loc.file_id()) { self.bad.push(format!("name {n}: file id not in source map")); }
                 match self.src.get(a..b) { Some(t) if t == n.as_str() => {}, other => self.bad.push(format!("name {n} located at {a}..{b} = {other:?}")) }
+                range_check(self.src, self.sources, loc, &format!("name {n}"), &mut self.bad);
             }
         }
     }
@@ -56,7 +71,7 @@ impl<'a> Walk<'a> {
         self.nodes += 1;
         match n.location() {
             None => self.bad.push(format!("{what} has no location")),
-            Some(loc) => { if loc.end_offset() > self.src.len() || loc.offset() > loc.end_offset() || !self.src.is_char_boundary(loc.offset()) || !self.src.is_char_boundary(loc.end_offset()) { self.bad.push(format!("{what} location {}..{} outside the file", loc.offset(), loc.end_offset())); } }
+            Some(loc) => { if loc.end_offset() > self.src.len() || loc.offset() > loc.end_offset() || !self.src.is_char_boundary(loc.offset()) || !self.src.is_char_boundary(loc.end_offset()) { self.bad.push(format!("{what} location {}..{} outside the file", loc.offset(), loc.end_offset())); } else { range_check(self.src, self.sources, loc, what, &mut self.bad); } }
         }
     }
     fn ty(&mut self, t: &ast::Type) { self.name(t.inner_named_type()); }
